@@ -1676,3 +1676,171 @@ Proof.
            ++ intros [[[-> ->]|[N R]] [N2 [_ F]]]; [|auto]. exfalso.
               assert (C : c2 k = true) by (apply cond2_iff; auto). congruence.
 Qed.
+
+Lemma nodup_snd (l : list (string * nat)) :
+  NoDup (map fst l) -> (forall k k' j, In (k, j) l -> In (k', j) l -> k = k') -> NoDup (map snd l).
+Proof.
+  induction l as [|[k j] t IH]; cbn [map fst snd]; intros ND Hinj; [constructor|].
+  inversion ND as [|a l' Hk ND']. subst a l'. constructor.
+  - intros H. apply in_map_iff in H as [[k' j'] [E H]]. cbn [snd] in E. subst j'.
+    assert (k = k') by (eapply Hinj; [left; reflexivity|right; exact H]). subst k'. apply Hk. eapply In_keys; eauto.
+  - apply IH; [exact ND'|]. intros k1 k2 j' H1 H2. eapply Hinj; right; eauto.
+Qed.
+
+Lemma existsb_snd (l : list (string * nat)) x :
+  existsb (fun p => Nat.eqb (snd p) x && true) l = true <-> exists k, In (k, x) l.
+Proof.
+  rewrite existsb_exists. split.
+  - intros [[k j] [H E]]. cbn [snd] in E. rewrite andb_true_r in E. apply Nat.eqb_eq in E. subst. eauto.
+  - intros [k H]. exists (k, x). split; [exact H|]. cbn [snd]. rewrite Nat.eqb_refl. reflexivity.
+Qed.
+
+(* first loop of removeMatches: r.removeMatch(v) for every v in r.matched *)
+Lemma foldA_get name i : forall l h x,
+  (forall k j, In (k, j) l -> j <> i) ->
+  (forall k j, In (k, j) l -> name_of h j = k) -> name_of h i = name -> NoDup (map snd l) ->
+  hget x (fold_left (fun hh p => role_remove_match hh i (snd p)) l h) =
+  option_map (fun o =>
+    if Nat.eqb x i
+    then set_matched o (fold_left (fun m p => del (fst p) m) l (o_matched o))
+    else if existsb (fun p => Nat.eqb (snd p) x && true) l
+         then set_matchedBy o (del name (o_matchedBy o)) else o) (hget x h).
+Proof.
+  induction l as [|[k j] t IH]; intros h x Hne Hnm Hi ND; cbn [fold_left existsb fst snd].
+  - destruct (hget x h) as [o|]; [|reflexivity]. cbn [option_map]. destruct (Nat.eqb x i); [|reflexivity].
+    unfold set_matched. rewrite robj_eta. reflexivity.
+  - inversion ND as [|a l' Hj ND']. subst a l'.
+    assert (Hne' : forall k' j', In (k', j') t -> j' <> i) by (intros; eapply Hne; right; eauto).
+    assert (Nji : j <> i) by (eapply Hne; left; reflexivity).
+    assert (Hnm' : forall k' j', In (k', j') t -> name_of (role_remove_match h i j) j' = k').
+    { intros k' j' H. rewrite (name_of_shape h); [|apply shapeL_remove_match]. apply Hnm. right. exact H. }
+    assert (Hi' : name_of (role_remove_match h i j) i = name).
+    { rewrite (name_of_shape h); [exact Hi|apply shapeL_remove_match]. }
+    rewrite (IH (role_remove_match h i j) x Hne' Hnm' Hi' ND').
+    rewrite delm_get. rewrite (Hnm k j (or_introl eq_refl)), Hi.
+    destruct (hget x h) as [o|]; [|reflexivity]. cbn [option_map]. f_equal.
+    destruct (Nat.eqb x i) eqn:Exi.
+    + apply Nat.eqb_eq in Exi. subst x. rewrite Nat.eqb_refl.
+      assert (Eji : Nat.eqb j i = false) by (apply Nat.eqb_neq; exact Nji). rewrite Eji. reflexivity.
+    + assert (Eix : Nat.eqb i x = false) by (rewrite Nat.eqb_sym; exact Exi). rewrite Eix.
+      destruct (Nat.eqb j x) eqn:Ejx; cbn [andb orb].
+      * apply Nat.eqb_eq in Ejx. subst x. rewrite (existsb_ids_false (fun _ => true) t j Hj). reflexivity.
+      * rewrite robj_eta. reflexivity.
+Qed.
+
+(* second loop: v.removeMatch(r) for every v in r.matchedBy *)
+Lemma foldB_get name i : forall l h x,
+  (forall k j, In (k, j) l -> j <> i) ->
+  (forall k j, In (k, j) l -> name_of h j = k) -> name_of h i = name -> NoDup (map snd l) ->
+  hget x (fold_left (fun hh p => role_remove_match hh (snd p) i) l h) =
+  option_map (fun o =>
+    if Nat.eqb x i
+    then set_matchedBy o (fold_left (fun m p => del (fst p) m) l (o_matchedBy o))
+    else if existsb (fun p => Nat.eqb (snd p) x && true) l
+         then set_matched o (del name (o_matched o)) else o) (hget x h).
+Proof.
+  induction l as [|[k j] t IH]; intros h x Hne Hnm Hi ND; cbn [fold_left existsb fst snd].
+  - destruct (hget x h) as [o|]; [|reflexivity]. cbn [option_map]. destruct (Nat.eqb x i); [|reflexivity].
+    unfold set_matchedBy. rewrite robj_eta. reflexivity.
+  - inversion ND as [|a l' Hj ND']. subst a l'.
+    assert (Hne' : forall k' j', In (k', j') t -> j' <> i) by (intros; eapply Hne; right; eauto).
+    assert (Nji : j <> i) by (eapply Hne; left; reflexivity).
+    assert (Hnm' : forall k' j', In (k', j') t -> name_of (role_remove_match h j i) j' = k').
+    { intros k' j' H. rewrite (name_of_shape h); [|apply shapeL_remove_match]. apply Hnm. right. exact H. }
+    assert (Hi' : name_of (role_remove_match h j i) i = name).
+    { rewrite (name_of_shape h); [exact Hi|apply shapeL_remove_match]. }
+    rewrite (IH (role_remove_match h j i) x Hne' Hnm' Hi' ND').
+    rewrite delm_get. rewrite (Hnm k j (or_introl eq_refl)), Hi.
+    destruct (hget x h) as [o|]; [|reflexivity]. cbn [option_map]. f_equal.
+    destruct (Nat.eqb x i) eqn:Exi.
+    + apply Nat.eqb_eq in Exi. subst x. rewrite Nat.eqb_refl.
+      assert (Eji : Nat.eqb j i = false) by (apply Nat.eqb_neq; exact Nji). rewrite Eji. reflexivity.
+    + assert (Eix : Nat.eqb i x = false) by (rewrite Nat.eqb_sym; exact Exi). rewrite Eix.
+      destruct (Nat.eqb j x) eqn:Ejx; cbn [andb orb].
+      * apply Nat.eqb_eq in Ejx. subst x. rewrite (existsb_ids_false (fun _ => true) t j Hj). reflexivity.
+      * rewrite robj_eta. reflexivity.
+Qed.
+
+(* removeRole with a matching function: every other object forgets the removed name *)
+Lemma unreg_WFm_mf s name : WF s -> m_mf s = true -> WFm (remove_role s name).
+Proof.
+  intros [W Wm] Hm. destruct (lookup name (m_all s)) as [i|] eqn:L; [|unfold remove_role; rewrite L; exact Wm].
+  rewrite (remove_role_eq _ _ _ L). apply lookup_In in L. fold (regd s name i) in L.
+  destruct (ws_obj _ W _ _ L) as [oi [Gi Ni]]. destruct (Wm _ _ _ L Gi) as [NA [NB [SA SB]]].
+  set (lA := o_matched oi) in *. set (lB := o_matchedBy oi) in *.
+  assert (HA : forall k j, In (k, j) lA -> regd s k j /\ j <> i).
+  { intros k j H. apply SA in H as [R [N _]]. split; [exact R|]. intros ->. apply N. eapply regd_inj; eauto. }
+  assert (HB : forall k j, In (k, j) lB -> regd s k j /\ j <> i).
+  { intros k j H. apply SB in H as [R [N _]]. split; [exact R|]. intros ->. apply N. eapply regd_inj; eauto. }
+  assert (IA : NoDup (map snd lA)).
+  { apply nodup_snd; [exact NA|]. intros k k' j H1 H2. eapply regd_inj; [exact W|apply HA; eauto|apply HA; eauto]. }
+  assert (IB : NoDup (map snd lB)).
+  { apply nodup_snd; [exact NB|]. intros k k' j H1 H2. eapply regd_inj; [exact W|apply HB; eauto|apply HB; eauto]. }
+  unfold role_remove_matches. rewrite (obj_of_get _ _ _ Gi). fold lA.
+  set (h1 := fold_left (fun hh p => role_remove_match hh i (snd p)) lA (m_heap s)).
+  assert (S1 : shapeL (m_heap s) h1).
+  { apply fold_shape; [exact sameL_refl|exact sameL_trans|]. intros hh p. apply shapeL_remove_match. }
+  assert (GA : forall x, hget x h1 = option_map (fun o =>
+             if Nat.eqb x i then set_matched o (fold_left (fun m p => del (fst p) m) lA (o_matched o))
+             else if existsb (fun p => Nat.eqb (snd p) x && true) lA then set_matchedBy o (del name (o_matchedBy o)) else o)
+             (hget x (m_heap s))).
+  { intros x. unfold h1. apply foldA_get; [intros k j H; apply (HA _ _ H)| |apply name_of_regd; assumption|exact IA].
+    intros k j H. apply name_of_regd; [exact W|apply (HA _ _ H)]. }
+  assert (Gi1 : o_matchedBy (obj_of h1 i) = lB).
+  { unfold obj_of. rewrite GA, Gi. cbn [option_map]. rewrite Nat.eqb_refl. reflexivity. }
+  rewrite Gi1.
+  assert (GB : forall x, hget x (fold_left (fun hh p => role_remove_match hh (snd p) i) lB h1) = option_map (fun o =>
+             if Nat.eqb x i then set_matchedBy o (fold_left (fun m p => del (fst p) m) lB (o_matchedBy o))
+             else if existsb (fun p => Nat.eqb (snd p) x && true) lB then set_matched o (del name (o_matched o)) else o)
+             (hget x h1)).
+  { intros x. apply foldB_get; [intros k j H; apply (HB _ _ H)| | |exact IB].
+    - intros k j H. rewrite (name_of_shape _ _ _ S1). apply name_of_regd; [exact W|apply (HB _ _ H)].
+    - rewrite (name_of_shape _ _ _ S1). apply name_of_regd; assumption. }
+  intros k j o' H G. unfold regd in H. cbn [m_all m_heap m_mf] in *. apply del_In in H as [Nk H].
+  fold (regd s k j) in H.
+  assert (Nji : j <> i) by (intros ->; apply Nk; eapply regd_inj; eauto).
+  assert (Eji : Nat.eqb j i = false) by (apply Nat.eqb_neq; exact Nji).
+  destruct (ws_obj _ W _ _ H) as [oj [Gj _]]. destruct (Wm _ _ _ H Gj) as [NM [NBy [SM SBy]]].
+  rewrite GB, GA, Gj in G. cbn [option_map] in G. rewrite Eji in G.
+  set (eA := existsb (fun p => Nat.eqb (snd p) j && true) lA) in *.
+  set (eB := existsb (fun p => Nat.eqb (snd p) j && true) lB) in *.
+  assert (XA : eA = true <-> mf k name = true).
+  { unfold eA. rewrite existsb_snd. split.
+    - intros [k' H']. pose proof (proj1 (HA _ _ H')) as R. assert (k' = k) by (eapply regd_inj; eauto). subst k'.
+      apply SA in H'. tauto.
+    - intros F. exists k. apply SA. auto. }
+  assert (XB : eB = true <-> mf name k = true).
+  { unfold eB. rewrite existsb_snd. split.
+    - intros [k' H']. pose proof (proj1 (HB _ _ H')) as R. assert (k' = k) by (eapply regd_inj; eauto). subst k'.
+      apply SB in H'. tauto.
+    - intros F. exists k. apply SB. auto. }
+  assert (Em : o_matched o' = if eB then del name (o_matched oj) else o_matched oj).
+  { inversion G. destruct eA, eB; reflexivity. }
+  assert (Eb : o_matchedBy o' = if eA then del name (o_matchedBy oj) else o_matchedBy oj).
+  { inversion G. destruct eA, eB; reflexivity. }
+  rewrite Em, Eb. unfold regd. cbn [m_all].
+  split; [destruct eB; [apply del_nodup|]; exact NM|]. split; [destruct eA; [apply del_nodup|]; exact NBy|].
+  split.
+  - intros mk v. rewrite (del_In name (m_all s) mk v). fold (regd s mk v). destruct eB eqn:EB.
+    + rewrite del_In, SM. tauto.
+    + rewrite SM. split; [|tauto]. intros [R [N2 [Hm' F]]]. split; [split; [|exact R]|auto].
+      intros ->. assert (eB' : false = true) by (apply XB; exact F). discriminate.
+  - intros pk v. rewrite (del_In name (m_all s) pk v). fold (regd s pk v). destruct eA eqn:EA.
+    + rewrite del_In, SBy. tauto.
+    + rewrite SBy. split; [|tauto]. intros [R [N2 [Hm' F]]]. split; [split; [|exact R]|auto].
+      intros ->. assert (eA' : false = true) by (apply XA; exact F). discriminate.
+Qed.
+
+Notation Pany := (fun _ : bool => True).
+Lemma GRM_any : GRM Pany.
+Proof.
+  intros s name s' i c W _ E. destruct (m_mf s) eqn:Hm.
+  - eapply get_role_WFm_mf; eauto.
+  - eapply get_role_WFm_nomf; eauto.
+Qed.
+Lemma URM_any : URM Pany.
+Proof.
+  intros s name W _. destruct (m_mf s) eqn:Hm.
+  - apply unreg_WFm_mf; assumption.
+  - apply unreg_WFm_nomf; assumption.
+Qed.
